@@ -102,6 +102,17 @@ func (in *inst) mkcb(id int) func(k string, v interface{}) {
 			in.c.Set(k, val(v)+".r", cache.NoExpiration)
 		}
 	}
+	if id == 7 {
+		// a callback that replaces itself: at its first invocation it installs callback 2 (used by the direct twin
+		// comparison only: the models have no callbacks with effects)
+		return func(k string, v interface{}) {
+			in.cbs = append(in.cbs, fmt.Sprintf("%d:%s:%s", id, k, val(v)))
+			if in.curCb == 7 {
+				in.curCb = 2
+				in.c.SetCallback(in.mkcb(2))
+			}
+		}
+	}
 	if id == 8 {
 		// a callback that starts another cleanup pass from inside a pass (C06 lets the callback call back into
 		// the cache): it plants two entries that expire at once, lets the clock pass them, and sweeps
@@ -398,6 +409,7 @@ type gen struct {
 	exps   []int64 // expiration instants produced so far (approximate bookkeeping for boundary ticks)
 	nkeys  int
 	stats  map[string]int
+	cb7    bool // offer the self-replacing callback 7 (twin comparison runs)
 }
 
 func (g *gen) key() string { return fmt.Sprintf("k%d", g.r.intn(g.nkeys)) }
@@ -490,6 +502,9 @@ func (g *gen) op() string {
 		return "evcb"
 	case n < 95:
 		ids := []string{"nil", "1", "2", "3"}
+		if g.cb7 {
+			ids = append(ids, "7", "7")
+		}
 		return "setevcb " + ids[r.intn(len(ids))]
 	default:
 		// clock advance: half of the time land on / around a known expiration instant
@@ -563,7 +578,7 @@ func seqCache(a map[string]string) {
 	r := newRng(uint64(seed))
 	stats := map[string]int{}
 	for s := 0; s < nseq; s++ {
-		g := &gen{r: r, now: clockBase, nkeys: 2 + r.intn(5), stats: stats}
+		g := &gen{r: r, now: clockBase, nkeys: 2 + r.intn(5), stats: stats, cb7: argInt(a, "cb7", 0) == 1}
 		if s%8 == 7 {
 			g.nkeys = 150 + r.intn(250) // long chains and resizes of the underlying table
 		}
